@@ -45,7 +45,7 @@ def run_case(case):
 TOUCHED = {"data.py": ["C09", "C14"], "dag_ast.py": ["C05", "C06", "C15", "C07", "C01"], "language.py": ["C01", "C02", "C04", "C08", "C16", "C11"],
            "analysis.py": ["C10", "C15"], "exec_numpy.py": ["C01", "C08", "C11", "C04"], "transform.py": ["C07", "C16", "C15"],
            "utils.py": ["C13", "C20", "C08", "C15"], "expression.py": ["C17", "C18", "C08", "C19"], "python.py": ["C01", "C11", "C13", "C15", "C20"],
-           "function_registry.py": ["C09", "C01"], "fortran.py": ["C13", "C15", "C20"]}
+           "function_registry.py": ["C09", "C01", "C15"], "fortran.py": ["C13", "C15", "C20"]}
 
 
 def cross():
